@@ -310,6 +310,24 @@ def run(ctx):
             check_kernel(ctx, src.replace("{DEC}", dec), S, zones, f"{label}/{tag}", cases, other=other if tag == "unfolded" else None)
         if i == 0:
             ctx.sample({"kernel": src.replace("{DEC}", "")[-700:], "spec": label})
+    # always present, whatever the random stream: every zone under every transform that keeps one axis (or both) unchanged, followed by a
+    # view and an index - derived grids that share columns, rows or shape with a named zone must not be attributed to it
+    TRANSFORMS = ["grid.shift({z}, 0.0, 1.5)", "grid.shift({z}, 2.5, 0.0)", "grid.shift({z}, 0.0, 0.0)", "grid.scale({z}, 1.0, 2.0)", "grid.scale({z}, 2.0, 1.0)",
+                  "grid.scale({z}, 1.0, 1.0)", "grid.repeat({z}, 1, 2, 1.0, 30.0)", "grid.repeat({z}, 2, 1, 30.0, 1.0)", "grid.repeat({z}, 1, 1, 1.0, 1.0)",
+                  "grid.shift_subgrid_y({z}, [0], 1.5)", "grid.shift_subgrid_x({z}, [0], 2.5)",
+                  "grid.from_positions(grid.get_xpos({z}), [100.0, 101.0])", "grid.from_positions([100.0, 101.0], grid.get_ypos({z}))"]
+    nfixed = 0
+    for label, (S, zones) in SP.items():
+        for zname in zones:
+            for t in TRANSFORMS:
+                src = ("@move{DEC}\ndef main(c: bool):\n" + f'    z1 = spec.get_static_trap(zone_id="{zname}")\n    u2 = {t.format(z="z1")}\n'
+                       "    v3 = u2[0:1, 0:1]\n    w4 = grid.sub_grid(u2, [0], [0])\n"
+                       # each value is used by a statement of its own, so that folding keeps it as a value of its own
+                       "    gate.local_rz(0.5, z1)\n    gate.local_rz(0.5, u2)\n    gate.local_rz(0.5, v3)\n    gate.local_rz(0.5, w4)\n")
+                for dec, tag in (("", "unfolded"), ("(arch_spec=S)", "folded")):
+                    check_kernel(ctx, src.replace("{DEC}", dec), S, zones, f"{label}/{tag}", cases)
+                nfixed += 1
+    ctx.count("fixed kernels: every zone under every axis-preserving transform (unfolded and folded)", nfixed)
     chunks = [cases[i:i + 60] for i in range(0, len(cases), 60)]
     bodies = []
     for k, ch in enumerate(chunks):
